@@ -29,6 +29,7 @@ type FuncResult struct {
 	Contract   *FuncContract
 	IsLemma    bool
 	Replay     *replayInfo
+	Prog       *Program
 }
 
 func newExec(prog *Program, name string) *Exec {
@@ -64,7 +65,7 @@ func (e *Exec) assertAxioms(pkgPath string, only []string) {
 
 func verifyFunc(prog *Program, fc *FuncContract) (res *FuncResult) {
 	short := shortName(fc.Pkg) + "." + fc.Key
-	res = &FuncResult{Pkg: fc.Pkg, Key: fc.Key, Name: short, Contract: fc}
+	res = &FuncResult{Pkg: fc.Pkg, Key: fc.Key, Name: short, Contract: fc, Prog: prog}
 	node, pkg, _ := prog.findTarget(fc.Pkg, fc.Key)
 	if node == nil {
 		res.Missing = true
